@@ -17,7 +17,7 @@ from .. import tlc
 
 INVS = ["InvInterop", "InvIdentifyOwn", "InvNeedsUpdate", "InvCtx"]
 ROUNDS = {"sha256c": [1000, 1001, 5000], "sha512c": [1000, 5000], "pb256": [1, 2, 1000], "pb512": [2, 3], "bcrypt": [4, 5], "bcsha": [4, 5]}
-PWS = {"p1": ["pw-one", "p\xe4ss w\xf6rd €", b"bytes\xff\xfe pw", "x" * 72], "p2": ["pw-two", "", "y" * 71 + "\xe9"[:0] + "z", b"\x01\x02"]}
+PWS = {"p1": ["pw-one", "p\xe4ss w\xf6rd €", b"bytes\xff\xfe pw", "x" * 72, "L" * 96, "M" * 200], "p2": ["pw-two", "", "y" * 71 + "z", b"\x01\x02", "L" * 95 + "l", "N" * 130]}
 
 
 def classes():
@@ -57,10 +57,12 @@ def salt_for(fmt, rnd):
 def replay_beh(chk, C, beh, rnd):
     from libpass.context import CryptContext as LCtx
     real = {}
-    variant = rnd.randrange(4)
+    variant = rnd.randrange(6)
 
-    def pw(p):
+    def pw(p, fmt=None):
         v = PWS[p][variant]
+        if fmt in ("bcrypt",) and len(v) > 72:          # the bcrypt library refuses more than 72 bytes
+            v = PWS[p][3]
         return v
 
     def mk(L):
@@ -78,7 +80,7 @@ def replay_beh(chk, C, beh, rnd):
                 got = "ok"
             elif op == "l_hash":
                 salt = salt_for(L["fmt"], rnd)
-                text = mk(L).hash(pw(st["pw"]), **({"salt": salt} if salt is not None else {}))
+                text = mk(L).hash(pw(st["pw"], L["fmt"]), **({"salt": salt} if salt is not None else {}))
                 real[json.dumps(h, sort_keys=True)] = text
                 extra["hash"] = text
                 got = "ok" if isinstance(text, str) and text.isascii() else "not-ascii-str"
@@ -88,14 +90,14 @@ def replay_beh(chk, C, beh, rnd):
                 salt = salt_for(h["fmt"], rnd)
                 if salt is not None:
                     kw["salt"] = salt
-                text = P.using(**kw).hash(pw(st["pw"]))
+                text = P.using(**kw).hash(pw(st["pw"], h["fmt"]))
                 real[json.dumps(h, sort_keys=True)] = text
                 extra["hash"] = text
                 got = "ok"
                 if h["implicit"] and "rounds=" in text:
                     got = "not-implicit-form"
             elif op == "ctx_hash":
-                p = pw(st["pw"])
+                p = pw(st["pw"], h["fmt"])
                 text = ctx.hash(p)
                 real[json.dumps(h, sort_keys=True)] = text
                 extra["hash"] = text
@@ -103,7 +105,7 @@ def replay_beh(chk, C, beh, rnd):
             else:
                 text = real[json.dumps(h, sort_keys=True)]
                 extra["hash"] = text
-                p = pw(st["pw"]) if st["pw"] else None
+                p = pw(st["pw"], h["fmt"]) if st["pw"] else None
                 hb = text.encode() if rnd.random() < .3 else text
                 if op == "l_verify":
                     got = str(mk(L).verify(hb, p))
